@@ -1245,7 +1245,15 @@ func (p *parser) parseBlock(block text.BlockReader, parent ast.Node, pc Context)
 		if lineBreakFlags&(lineBreakHard|lineBreakVisible) == lineBreakHard|lineBreakVisible {
 			text = ast.NewTextSegment(diff)
 		} else {
-			text = ast.NewTextSegment(diff.TrimRightSpace(source))
+			trimmed := diff.TrimRightSpace(source)
+			if diff.Len() != 0 && trimmed.Len() == 0 {
+				// The rest of the line is blank: trailing spaces may continue into
+				// the text that was flushed when an inline parser was tried at a space.
+				if t, ok := parent.LastChild().(*ast.Text); ok && t.Segment.Stop == diff.Start && !t.SoftLineBreak() {
+					t.Segment = t.Segment.TrimRightSpace(source)
+				}
+			}
+			text = ast.NewTextSegment(trimmed)
 		}
 		text.SetSoftLineBreak(lineBreakFlags&lineBreakSoft != 0)
 		text.SetHardLineBreak(lineBreakFlags&lineBreakHard != 0)
